@@ -9,7 +9,7 @@
    operands are snapshotted before/after every call and the package-level tables and constants are
    snapshotted through the verif hook before/after whole histories of calls. *)
 From Coq Require Import ZArith Bool List.
-From Apd Require Import Generated.Consts Model.Base Model.NumDigits Model.Decimal Model.Context Imp.Mem Imp.Ops Imp.AliasProofs Imp.CtxOps Imp.CtxProofs Imp.CtxMulProofs.
+From Apd Require Import Generated.Consts Model.Base Model.NumDigits Model.Decimal Model.Context Imp.Mem Imp.Ops Imp.AliasProofs Imp.CtxOps Imp.CtxProofs Imp.CtxMulProofs Imp.CtxFootprints2.
 Open Scope Z_scope.
 
 Theorem C06_set_writes_destination_only d x : wr_within (only_obj d) (set_imp d x).
@@ -47,6 +47,12 @@ Theorem C06_context_mul_footprint est c d x y :
   wr_within (only_obj d) (mul_imp est c d x y) /\ rd_within (only_objs [d; x; y]) (mul_imp est c d x y).
 Proof. exact (conj (mul_imp_ww est c d x y) (mul_imp_reads est c d x y)). Qed.
 Print Assumptions C06_context_mul_footprint.
+
+Theorem C06_context_rem_quo_integer_footprints est c d x y :
+  wr_within (only_obj d) (rem_imp est c d x y) /\ rd_within (only_objs [d; x; y]) (rem_imp est c d x y) /\
+  wr_within (only_obj d) (quo_integer_imp est c d x y) /\ rd_within (only_objs [d; x; y]) (quo_integer_imp est c d x y).
+Proof. exact (conj (rem_imp_ww est c d x y) (conj (rem_imp_reads est c d x y) (conj (quo_integer_imp_ww est c d x y) (quo_integer_imp_reads est c d x y)))). Qed.
+Print Assumptions C06_context_rem_quo_integer_footprints.
 
 (* independence of the destination's previous contents and preservation of the others, as one statement
    (from C05_modf): two initial memories that agree on the receiver give the same outputs *)
